@@ -402,6 +402,12 @@ def _eval(t, env):
         return mul(evaluate(t[1], env), evaluate(t[2], env))
     if h == "/":
         return div(evaluate(t[1], env), evaluate(t[2], env))
+    if h == "idiv":
+        # truncating integer division of non-negative operands: 0 <= a / b <= a   (b == 0 is C12's subject)
+        a_ = evaluate(t[1], env)
+        if a_.ge0():
+            return Iv(0.0, a_.hi)
+        return Iv.top(nan=False)
     if h == "neg":
         return neg(evaluate(t[1], env))
     if h == "abs":
